@@ -248,3 +248,30 @@ def flatten_apex_calls(F, E, fn, depth=0):
             for (m, n2, u2, l2, o2) in flatten_apex_calls(F, E, g, depth + 1):
                 out.append((m, n2, uncond and u2, loop or l2, ordered and o2))
     return out
+
+
+def constructs_guard_control(F, g):
+    return any(x['k'] == 'ctor' and (x.get('cls') or '').startswith('ffsm2::detail::GuardControlT<') and not (x.get('cls') or '').endswith('::Lock')
+               for x in ir.all_exprs(g))
+
+
+def guard_round_sites(F, E, fn, c):
+    """the places in fn where one guard round is performed: a GuardControl is constructed here, or a callee (transitively) constructs one.
+    Independent of whether the round's helper is inlined into the loop or not."""
+    out = []
+    for n in c.nodes:
+        if n.kind == 'ctor' and ir.is_expr(n.e) and (n.e.get('cls') or '').startswith('ffsm2::detail::GuardControlT<'):
+            out.append(n)
+        elif n.kind == 'call':
+            g, _ = call_target(F, E, fn, n) if (n.e.get('fn') is not None or n.e.get('pm')) else (None, None)
+            cands = [g] if g is not None else []
+            if n.e.get('pm'):
+                for r in E.resolve_pm_all(fn, n.e):
+                    h = F.fn(r['fn']) if r.get('fn') is not None else None
+                    if h is not None:
+                        cands.append(h)
+            for h in cands:
+                if h.tkey in ROOT_TKEYS and (constructs_guard_control(F, h) or any(constructs_guard_control(F, k) for k in E.calls_star(h).values())):
+                    out.append(n)
+                    break
+    return out
